@@ -63,6 +63,9 @@ func loopBlocks(b *ssa.BasicBlock) map[*ssa.BasicBlock]bool {
 // InLoop reports whether the instruction executes once per iteration of some loop.
 func InLoop(i ssa.Instruction) bool { return loopBlocks(i.Block()) != nil }
 
+// LoopOf returns the blocks of the (outermost) cycle the instruction's block lies on, nil when it is on none.
+func LoopOf(i ssa.Instruction) map[*ssa.BasicBlock]bool { return loopBlocks(i.Block()) }
+
 // freshPerIteration: v's backing array is created by the iteration that computes v: a call result computed in
 // the loop, or an append chain rooted at a make([]T, ...) executed in the loop. A re-sliced loop-carried or hoisted
 // buffer is not fresh.
